@@ -22,15 +22,18 @@ Gen/HyperVLits.vos Gen/HyperVLits.vok Gen/HyperVLits.required_vos: Gen/HyperVLit
 Gen/Layouts.vo Gen/Layouts.glob Gen/Layouts.v.beautified Gen/Layouts.required_vo: Gen/Layouts.v Base/Layout.vo
 Gen/Layouts.vio: Gen/Layouts.v Base/Layout.vio
 Gen/Layouts.vos Gen/Layouts.vok Gen/Layouts.required_vos: Gen/Layouts.v Base/Layout.vos
-Spec/HyperV.vo Spec/HyperV.glob Spec/HyperV.v.beautified Spec/HyperV.required_vo: Spec/HyperV.v 
-Spec/HyperV.vio: Spec/HyperV.v 
-Spec/HyperV.vos Spec/HyperV.vok Spec/HyperV.required_vos: Spec/HyperV.v 
+Spec/HyperV.vo Spec/HyperV.glob Spec/HyperV.v.beautified Spec/HyperV.required_vo: Spec/HyperV.v Base/Plan.vo Base/Layout.vo Base/Table.vo Model/HyperV.vo
+Spec/HyperV.vio: Spec/HyperV.v Base/Plan.vio Base/Layout.vio Base/Table.vio Model/HyperV.vio
+Spec/HyperV.vos Spec/HyperV.vok Spec/HyperV.required_vos: Spec/HyperV.v Base/Plan.vos Base/Layout.vos Base/Table.vos Model/HyperV.vos
 Model/HyperV.vo Model/HyperV.glob Model/HyperV.v.beautified Model/HyperV.required_vo: Model/HyperV.v Base/Plan.vo Base/Layout.vo Base/Table.vo Gen/Consts.vo Gen/Layouts.vo Gen/Enums.vo Gen/HyperVLits.vo
 Model/HyperV.vio: Model/HyperV.v Base/Plan.vio Base/Layout.vio Base/Table.vio Gen/Consts.vio Gen/Layouts.vio Gen/Enums.vio Gen/HyperVLits.vio
 Model/HyperV.vos Model/HyperV.vok Model/HyperV.required_vos: Model/HyperV.v Base/Plan.vos Base/Layout.vos Base/Table.vos Gen/Consts.vos Gen/Layouts.vos Gen/Enums.vos Gen/HyperVLits.vos
 Model/Vhd.vo Model/Vhd.glob Model/Vhd.v.beautified Model/Vhd.required_vo: Model/Vhd.v Base/Arith.vo Base/Plan.vo Base/Table.vo Gen/Consts.vo
 Model/Vhd.vio: Model/Vhd.v Base/Arith.vio Base/Plan.vio Base/Table.vio Gen/Consts.vio
 Model/Vhd.vos Model/Vhd.vok Model/Vhd.required_vos: Model/Vhd.v Base/Arith.vos Base/Plan.vos Base/Table.vos Gen/Consts.vos
+Proofs/HyperV.vo Proofs/HyperV.glob Proofs/HyperV.v.beautified Proofs/HyperV.required_vo: Proofs/HyperV.v Base/Arith.vo Base/Plan.vo Base/Layout.vo Base/Table.vo Model/HyperV.vo Spec/HyperV.vo
+Proofs/HyperV.vio: Proofs/HyperV.v Base/Arith.vio Base/Plan.vio Base/Layout.vio Base/Table.vio Model/HyperV.vio Spec/HyperV.vio
+Proofs/HyperV.vos Proofs/HyperV.vok Proofs/HyperV.required_vos: Proofs/HyperV.v Base/Arith.vos Base/Plan.vos Base/Layout.vos Base/Table.vos Model/HyperV.vos Spec/HyperV.vos
 Proofs/Vhd.vo Proofs/Vhd.glob Proofs/Vhd.v.beautified Proofs/Vhd.required_vo: Proofs/Vhd.v Base/Arith.vo Base/Plan.vo Base/Table.vo Model/Vhd.vo
 Proofs/Vhd.vio: Proofs/Vhd.v Base/Arith.vio Base/Plan.vio Base/Table.vio Model/Vhd.vio
 Proofs/Vhd.vos Proofs/Vhd.vok Proofs/Vhd.required_vos: Proofs/Vhd.v Base/Arith.vos Base/Plan.vos Base/Table.vos Model/Vhd.vos
